@@ -21,7 +21,40 @@ type fileCtx struct {
 }
 
 func newFileCtx(p *Program, pkg int) *fileCtx {
-	return &fileCtx{p: p, pkg: pkg, imports: map[string]string{}, names: map[string]bool{}}
+	c := &fileCtx{p: p, pkg: pkg, imports: map[string]string{}, names: map[string]bool{}}
+	// import names must not collide with the package's own top-level identifiers
+	for _, n := range p.PkgScopeNames(pkg) {
+		c.names[n] = true
+	}
+	return c
+}
+
+// PkgScopeNames lists the identifiers declared at package scope in package pkg.
+func (p *Program) PkgScopeNames(pkg int) []string {
+	var r []string
+	for _, d := range p.Decls {
+		if d.Pkg == pkg {
+			r = append(r, d.Name)
+		}
+	}
+	for _, it := range p.Items {
+		if it.Kind == KFunc && it.Pkg == pkg {
+			r = append(r, it.Name)
+		}
+	}
+	for _, s := range p.Sets {
+		if s.Pkg == pkg {
+			r = append(r, s.Name)
+		}
+	}
+	if pkg == 0 {
+		for _, in := range p.Injs {
+			r = append(r, in.Name)
+		}
+		r = append(r, p.PkgIdents...)
+		r = append(r, "Scenarios")
+	}
+	return r
 }
 
 func (c *fileCtx) imp(path, want string) string {
@@ -424,6 +457,14 @@ func (p *Program) Files(withDriver bool) map[string]string {
 		}
 		for f := 0; f < nfiles; f++ {
 			c = newFileCtx(p, 0)
+			// a parameter name would shadow an import inside the template body
+			for _, in := range p.Injs {
+				if in.File == f {
+					for _, prm := range in.Params {
+						c.names[prm.Name] = true
+					}
+				}
+			}
 			c.wire()
 			for _, in := range p.Injs {
 				if in.File == f {
@@ -673,9 +714,9 @@ func (c *fileCtx) renderDriver(an *Analysis) {
 		c.pf("\t%s.Injector(%q, %q, []string{%s}, func(c_ *%s.Call) {\n", tr, p.ID, in.Name, strings.Join(keys, ", "), tr)
 		var args []string
 		for j, prm := range in.Params {
-			c.pf("\t\ti%d := %s.New()\n\t\t_ = i%d\n", j, tr, j)
-			c.pf("\t\ta%d := %s\n", j, c.mk(prm.Ty, fmt.Sprintf("i%d", j), false))
-			a := fmt.Sprintf("a%d", j)
+			c.pf("\t\ti%d_ := %s.New()\n\t\t_ = i%d_\n", j, tr, j)
+			c.pf("\t\ta%d_ := %s\n", j, c.mk(prm.Ty, fmt.Sprintf("i%d_", j), false))
+			a := fmt.Sprintf("a%d_", j)
 			args = append(args, a)
 		}
 		c.pf("\t\tc_.Enter(%s)\n", strings.Join(args, ", "))
@@ -685,19 +726,19 @@ func (c *fileCtx) renderDriver(an *Analysis) {
 		}
 		switch {
 		case in.Cleanup && in.Err:
-			c.pf("\t\tres, cu, err := %s(%s)\n", in.Name, strings.Join(call, ", "))
-			c.pf("\t\tc_.Ret(res, true, cu == nil, true, err)\n")
-			c.pf("\t\tif err == nil && cu != nil {\n\t\t\tc_.CuInvoke()\n\t\t\tcu()\n\t\t\tc_.CuDone()\n\t\t}\n")
+			c.pf("\t\tres_, cu_, err_ := %s(%s)\n", in.Name, strings.Join(call, ", "))
+			c.pf("\t\tc_.Ret(res_, true, cu_ == nil, true, err_)\n")
+			c.pf("\t\tif err_ == nil && cu_ != nil {\n\t\t\tc_.CuInvoke()\n\t\t\tcu_()\n\t\t\tc_.CuDone()\n\t\t}\n")
 		case in.Cleanup:
-			c.pf("\t\tres, cu := %s(%s)\n", in.Name, strings.Join(call, ", "))
-			c.pf("\t\tc_.Ret(res, true, cu == nil, false, nil)\n")
-			c.pf("\t\tif cu != nil {\n\t\t\tc_.CuInvoke()\n\t\t\tcu()\n\t\t\tc_.CuDone()\n\t\t}\n")
+			c.pf("\t\tres_, cu_ := %s(%s)\n", in.Name, strings.Join(call, ", "))
+			c.pf("\t\tc_.Ret(res_, true, cu_ == nil, false, nil)\n")
+			c.pf("\t\tif cu_ != nil {\n\t\t\tc_.CuInvoke()\n\t\t\tcu_()\n\t\t\tc_.CuDone()\n\t\t}\n")
 		case in.Err:
-			c.pf("\t\tres, err := %s(%s)\n", in.Name, strings.Join(call, ", "))
-			c.pf("\t\tc_.Ret(res, false, true, true, err)\n")
+			c.pf("\t\tres_, err_ := %s(%s)\n", in.Name, strings.Join(call, ", "))
+			c.pf("\t\tc_.Ret(res_, false, true, true, err_)\n")
 		default:
-			c.pf("\t\tres := %s(%s)\n", in.Name, strings.Join(call, ", "))
-			c.pf("\t\tc_.Ret(res, false, true, false, nil)\n")
+			c.pf("\t\tres_ := %s(%s)\n", in.Name, strings.Join(call, ", "))
+			c.pf("\t\tc_.Ret(res_, false, true, false, nil)\n")
 		}
 		c.pf("\t})\n")
 	}
